@@ -43,7 +43,7 @@ def gen(rng):
                     n, d = rng.choice(hc.SIMPLE_CPS)
                     v = rng.choice(["", str(rng.randint(1, 9999)), str(rng.randint(1, 9999))])
                     if n == "CP_CANFDTxMaxDataLength":
-                        v = rng.choice(["", "TX_DL=64 CANFD", "TX_DL = 12 CANFD", "TX_DL=8", "whatever"])
+                        v = rng.choice(["", "TX_DL=64 CANFD", "TX_DL = 12 CANFD", "TX_DL=8", "whatever", "CAN FD, TX_DL = 32", "TX_DL=48"])
                     cps.append(dict(subset="CPSUB", name=n, proto=proto, value=v, sub=None, tag=tag))
                 else:
                     sub, n, subs = rng.choice(hc.COMPLEX_CPS)
@@ -138,6 +138,44 @@ def spec_comparams(layers, i, memo=None):
         d[(c.get("subset", "CPSUB"), c["name"], c["proto"])] = c
     memo[i] = d
     return d
+
+
+def check_refresh_history(ck, layers, db):
+    """the communication parameters of a layer follow the hierarchy as it is now: a COMPARAM-REF is taken out of the live
+    database, later put back; after each refresh() every layer has what override prescribes for the database as it is"""
+    import copy
+    owners = [L for L in layers if L.get("cps") and L["type"] != 4]
+    if not owners:
+        return
+    L = owners[len(json.dumps(layers)) % len(owners)]
+    dl = next(d for d in db.diag_layers if d.short_name == f"L{L['id']}")
+    raw = dl.diag_layer_raw.comparam_refs
+    victim = L["cps"][-1]
+    k = next((j for j, cp in enumerate(raw) if tag_of(cp) == victim["tag"]), None)
+    if k is None:
+        return
+    removed = raw.pop(k)
+    mod = copy.deepcopy(layers)
+    next(x for x in mod if x["id"] == L["id"])["cps"].pop()
+    for step, (lay, undo) in enumerate(((mod, False), (layers, True))):
+        if undo:
+            raw.insert(k, removed)
+        _, e, _ = cc.guarded(db.refresh, timeout=20)
+        ck.count(("refresh-history", json.dumps(layers), step))
+        hist = f"COMPARAM-REF {victim['name']} (tag {victim['tag']}) of L{L['id']} removed" + (", then put back" if undo else "") + "; refresh()"
+        rep = {"layers": layers, "history": hist}
+        if e is not None:
+            ck.violation(f"{hist}: refresh raised {type(e).__name__}: {e}", rep)
+            return
+        for d2 in db.diag_layers:
+            i = int(d2.short_name[1:])
+            if lay[i]["type"] == 4:
+                continue
+            got = sorted(tag_of(cp) for cp in d2.comparam_refs)
+            want = sorted(c["tag"] for c in spec_comparams(lay, i).values())
+            if got != want:
+                ck.violation(f"{hist}: layer L{i} has the communication parameters {got}, override prescribes {want}", rep)
+                return
 
 
 def main(argv=None):
@@ -310,6 +348,14 @@ def main(argv=None):
                     if e9 is None and got_can != (rx is not None):
                         bad = f"L{i}.uses_can(protocol={pn}) = {got_can} although the CAN receive id of that protocol is {rx}"
                         break
+                    if fdp is not None and isinstance(fdp.value, str):
+                        import re as _re
+                        m_ = _re.search("TX_DL *= *([0-9]+)", fdp.value)
+                        got_sz, e10, _ = cc.guarded(lambda: dl.get_max_can_payload_size(protocol=pn))
+                        if m_ and (e10 is not None or got_sz != int(m_.group(1))):
+                            bad = (f"L{i}.get_max_can_payload_size(protocol={pn}) = {got_sz if e10 is None else type(e10).__name__}, the "
+                                   f"numeric content of CP_CANFDTxMaxDataLength {fdp.value!r} is {int(m_.group(1))}")
+                            break
                     if fdp is None:
                         got_sz, e10, _ = cc.guarded(lambda: dl.get_max_can_payload_size(protocol=pn))
                         want_sz = 8 if rx is not None else None
@@ -337,6 +383,8 @@ def main(argv=None):
                                       model=[m[0], m[1][k] if k is not None else None],
                                       broken="correspondence Inherit.comparams/get_comparam"), found_input=False)
                     break
+        if hi % 3 == 0 and not ck.replay or ck.replay:
+            check_refresh_history(ck, layers, db)
         if hi % 40 == 0:
             ck.sample({"layers": layers})
     ck.assumptions = ["simple values are strings, complex values lists of strings (what the ODX parser produces)"]
